@@ -239,6 +239,12 @@ func (r *Report) Finish(verifDir string, seed int64, findings []Finding) int {
 	for k, v := range r.Extra {
 		cov[k] = v
 	}
+	if r.Assumptions == nil {
+		r.Assumptions = []string{"go/types and go/ssa (x/tools v0.29.0) model the program faithfully"}
+	}
+	if r.NotDecided == nil {
+		r.NotDecided = []string{}
+	}
 	ev := map[string]interface{}{
 		"property_id": r.Prop,
 		"tier":        r.Tier,
